@@ -149,7 +149,7 @@ pub fn expect_with(w: &World, now: Ts, pol: &Policy, ta_ok: &dyn Fn(usize) -> bo
     }
     // Compose.
     let mut rejected_blocks: BTreeSet<usize> = BTreeSet::new();
-    for r in &e.rejected { rejected_blocks.extend(w.blocks(*r)); }
+    for r in &e.rejected { if !w.cas[*r].slash0 { rejected_blocks.extend(w.blocks(*r)); } }
     for p in e.per_ca.values() {
         for v in &p.vrps {
             let hit = rejected_blocks.iter().any(|b| {
